@@ -228,3 +228,48 @@ Proof.
   - apply (s_loop_sound _ _ (cp_explicit_err2 X R) Or true false); [intros; reflexivity | now left | lia].
 Qed.
 End Compose.
+
+(* ---- round 7: randomised_parafac's gating.  As soon as the error is recomputed in every iteration in which it is recorded or handed
+   to the callback, every recorded value and every (iterate, value) pair handed to the callback is the error of the iterate of its
+   iteration, for every oracle of updates / callback stops / convergence stops; the returned iterate is the last one. *)
+Section PRand.
+Variables (St E : Type) (err : St -> E) (Or : roracle St E) (compute record cb : bool).
+Hypothesis Hrec : record = true -> compute = true.
+Hypothesis Hcb : cb = true -> compute = true.
+Theorem r_loop_values_true : forall n it cur e0 errs cbs,
+  let r := r_loop St E err Or compute record cb n it cur e0 errs cbs in
+  let sts := r_states St E err Or compute record cb n it cur e0 errs in
+  snd (fst r) = errs ++ (if record then map err sts else []) /\
+  snd r = cbs ++ (if cb then map (fun s => (s, err s)) sts else []) /\
+  fst (fst r) = last sts cur.
+Proof.
+  induction n as [|n IH]; intros it cur e0 errs cbs; cbn [r_loop r_states].
+  - destruct record, cb; cbn; rewrite ?app_nil_r; auto.
+  - set (st := r_update Or it cur).
+    set (e := if compute then err st else e0).
+    assert (He : record = true \/ cb = true -> e = err st).
+    { intros [H | H]; unfold e; [rewrite (Hrec H) | rewrite (Hcb H)]; reflexivity. }
+    set (errs' := if record then errs ++ [e] else errs).
+    set (cbs' := if cb then cbs ++ [(st, e)] else cbs).
+    assert (Herrs : errs' = errs ++ (if record then [err st] else [])).
+    { unfold errs'. destruct record eqn:Er; [now rewrite (He (or_introl eq_refl)) | now rewrite app_nil_r]. }
+    assert (Hcbs : cbs' = cbs ++ (if cb then [(st, err st)] else [])).
+    { unfold cbs'. destruct cb eqn:Ec; [now rewrite (He (or_intror eq_refl)) | now rewrite app_nil_r]. }
+    destruct (cb && r_cb_stop Or it) eqn:E1; [|destruct (record && r_conv_stop Or it errs') eqn:E2].
+    + cbn [fst snd map last]. rewrite Herrs, Hcbs. destruct record, cb; cbn; auto.
+    + cbn [fst snd map last]. rewrite Herrs, Hcbs. destruct record, cb; cbn; auto.
+    + destruct (IH (S it) st e errs' cbs') as (H1 & H2 & H3). cbv zeta in H1, H2, H3.
+      split; [|split].
+      * rewrite H1, Herrs, <- app_assoc. destruct record; cbn; rewrite ?app_nil_r; reflexivity.
+      * rewrite H2, Hcbs, <- app_assoc. destruct cb; cbn; rewrite ?app_nil_r; reflexivity.
+      * rewrite H3. destruct (r_states St E err Or compute record cb n (S it) st e errs') as [|a l]; [reflexivity|].
+        change (last (a :: l) st = last (a :: l) cur). apply last_cons_indep.
+Qed.
+End PRand.
+(* the gating matters: with the error computed only when it is recorded (compute = record = false, callback on) every in-loop callback
+   receives the value computed before the loop *)
+Definition toy_r : roracle nat nat := mkR nat nat (fun _ st => S st) (fun _ => false) (fun _ _ => false).
+Lemma r_loop_stale_gate_refuted :
+  snd (r_loop nat nat (fun st => st) toy_r false false true 3 0 0 0 [] []) = [(1, 0); (2, 0); (3, 0)] /\
+  snd (r_loop nat nat (fun st => st) toy_r true false true 3 0 0 0 [] []) = [(1, 1); (2, 2); (3, 3)].
+Proof. vm_compute. split; reflexivity. Qed.
